@@ -128,21 +128,24 @@ Print Assumptions C05_sort_result_ordered.
      forall eles, swo_on (less_real eles) (fun r => length r = length eles).
    The comparator of the code calls two numbers EQUAL when they differ by less than 1e-4.
    Proved: with exact numeric equality the multi-key comparison (num/str/auto, +/-,
-   missing values last) is a strict weak order … *)
+   missing values last) is a strict weak order … (vexact: an integer-typed value that meets a
+   float in the same column must survive the float64 conversion, see
+   C05_int_float_mix_not_transitive_refuted; all-integer columns need no guard:
+   C05_less_swo_int_keys) *)
 Theorem C05_less_exact_swo : forall eles,
-  swo_on (less_exact eles) (fun r => length r = length eles).
+  swo_on (less_exact eles) (fun r => length r = length eles /\ Forall vexact r).
 Proof. exact less_exact_swo. Qed.
 Print Assumptions C05_less_exact_swo.
 
 (* … and the real comparator is one on every set of records whose numeric sort keys are
    pairwise equal or at least 1e-4 apart (guard = the boolean `separated`) *)
-Theorem C05_less_swo_guarded : forall eles U, separated U = true ->
+Theorem C05_less_swo_guarded : forall eles U, separated U = true -> Forall (Forall vexact) U ->
   swo_on (less_real eles) (fun r => In r U /\ length r = length eles).
 Proof. exact less_swo_guarded. Qed.
 Print Assumptions C05_less_swo_guarded.
 
 Theorem C05_sort_topk_streaming_real_guarded : forall eles limit batches,
-  separated (concat batches) = true ->
+  separated (concat batches) = true -> Forall (Forall (Forall vexact)) batches ->
   Forall (Forall (fun r => length r = length eles)) batches ->
   process (less_real eles) limit batches = firstn limit (sort_by (less_real eles) (concat batches)).
 Proof. exact sort_topk_streaming_real_guarded. Qed.
@@ -168,60 +171,26 @@ Proof. exact sort_tolerance_unordered_refuted. Qed.
 Print Assumptions C05_sort_tolerance_unordered_refuted.
 
 (* ---------- sort: integer-typed keys over the whole int64 / uint64 range ---------- *)
-(* An integer column value is (dtype, 64 bits of CVal): int_of_bits reads the bits as int64
-   (two's complement) or uint64; compareValues turns both dtypes into float64
-   (f64_of_int: round to 53 significant bits, nearest-even).  That conversion is monotone … *)
-Theorem C05_f64_of_int_monotone : forall a b : Z, (a <= b)%Z -> (f64_of_int a <= f64_of_int b)%Z.
-Proof. exact f64_of_int_mono. Qed.
-Print Assumptions C05_f64_of_int_monotone.
+(* An integer column value is VInt dtype bits: int_of_bits reads the 64 bits of CVal as int64
+   (two's complement) or uint64.  compareValues compares two integer-typed values with
+   compareInts (sign first, then the bits as uint64): for every dtype mix and ALL 64-bit patterns
+   (uint64 >= 2^63 against negative int64, neighbours above 2^53, …) that is the exact integer
+   order in the requested direction — no tolerance, no float64 *)
+Theorem C05_int_keys_exact : forall ua a ra ub b rb asc op tol, op <> OpStr ->
+  (a < 2 ^ 64)%N -> (b < 2 ^ 64)%N ->
+  compare_values tol (VInt ua a ra) (VInt ub b rb) asc op
+  = flip asc (cmp3 (int_of_bits ua a) (int_of_bits ub b)).
+Proof. exact int_keys_exact. Qed.
+Print Assumptions C05_int_keys_exact.
 
-(* … and exact up to 2^53 *)
-Theorem C05_f64_of_int_exact : forall n : Z, (Z.abs n <= 2 ^ 53)%Z -> f64_of_int n = n.
-Proof. exact f64_of_int_exact. Qed.
-Print Assumptions C05_f64_of_int_exact.
+(* hence on records whose numeric sort keys are all integer-typed (several keys, next to strings
+   and missing values) the real comparator is a strict weak order and the streaming sort equals
+   the first `limit` of the sorted whole for ANY integer values and any batching *)
+Theorem C05_less_swo_int_keys : forall eles,
+  swo_on (less_real eles) (fun r => length r = length eles /\ Forall int_or_nonnum r).
+Proof. exact less_swo_int_keys. Qed.
+Print Assumptions C05_less_swo_int_keys.
 
-(* so compareValues (op num / auto / "") never orders two integer-typed values — any mix of
-   signed and unsigned, any bit patterns, e.g. uint64 >= 2^63 against negative int64 — against
-   their exact integer order; EQUAL means that their float64 images coincide *)
-Theorem C05_int_keys_never_inverted : forall ua a ra ub b rb asc op, op <> OpStr ->
-  let x := int_of_bits ua a in
-  let y := int_of_bits ub b in
-  match compare_values tolerance (int_value ua a ra) (int_value ub b rb) asc op with
-  | LESS => if asc then (x < y)%Z else (y < x)%Z
-  | GREATER => if asc then (y < x)%Z else (x < y)%Z
-  | EQUAL => f64_of_int x = f64_of_int y
-  end.
-Proof. exact int_keys_compare. Qed.
-Print Assumptions C05_int_keys_never_inverted.
-
-(* FULL STATEMENT (fails, see the refutation below): EQUAL <-> the integers are equal.
-   Proved under the guard that both integers survive the float64 conversion (f64_exact:
-   every |n| <= 2^53 and every m * 2^k with |m| < 2^53) *)
-Theorem C05_int_keys_exact_guarded : forall ua a ra ub b rb asc op, op <> OpStr ->
-  f64_exact (int_of_bits ua a) = true -> f64_exact (int_of_bits ub b) = true ->
-  (compare_values tolerance (int_value ua a ra) (int_value ub b rb) asc op = EQUAL
-   <-> int_of_bits ua a = int_of_bits ub b).
-Proof. exact int_keys_compare_exact_guarded. Qed.
-Print Assumptions C05_int_keys_exact_guarded.
-
-Theorem C05_f64_exact_below_2p53 : forall n : Z, (Z.abs n <= 2 ^ 53)%Z -> f64_exact n = true.
-Proof. exact f64_exact_below_2p53. Qed.
-Print Assumptions C05_f64_exact_below_2p53.
-
-(* refuted without the guard: 2^53 + 1 ~ 2^53, uint64 2^63 + 1 ~ int64 2^63 - 1, and the
-   ascending sort of [2^53 + 1; 2^53] leaves 2^53 + 1 in front *)
-Theorem C05_int_keys_float64_collapse_refuted :
-  (exists ua a ub b, int_of_bits ua a <> int_of_bits ub b /\
-     compare_values tolerance (int_value ua a []) (int_value ub b []) true OpNum = EQUAL) /\
-  compare_values tolerance (int_value true 9223372036854775809 []) (int_value false 9223372036854775807 []) true OpAuto = EQUAL /\
-  sort_by (less_real asc_num) [[int_value false 9007199254740993 []]; [int_value false 9007199254740992 []]]
-  = [[int_value false 9007199254740993 []]; [int_value false 9007199254740992 []]].
-Proof. exact int_keys_float64_collapse_refuted. Qed.
-Print Assumptions C05_int_keys_float64_collapse_refuted.
-
-(* integer keys never fall under the 1e-4 tolerance: on records whose numeric sort keys are all
-   integer-typed (with strings and missing values, several keys) the streaming sort equals the
-   first `limit` of the sorted whole for ANY values and any batching *)
 Theorem C05_sort_topk_streaming_int_keys : forall eles limit batches,
   Forall (Forall (Forall int_or_nonnum)) batches ->
   Forall (Forall (fun r => length r = length eles)) batches ->
@@ -229,21 +198,48 @@ Theorem C05_sort_topk_streaming_int_keys : forall eles limit batches,
 Proof. exact sort_topk_streaming_int_keys. Qed.
 Print Assumptions C05_sort_topk_streaming_int_keys.
 
-(* one integer key, values that survive the conversion: limits take a prefix of the sorted whole
-   and no two result rows are out of exact integer order, ascending or descending *)
-Theorem C05_sort_int_key_exact_guarded : forall asc op limit (batches : list (list ikey)), op <> OpStr ->
-  Forall (Forall (fun k => f64_exact (ival k) = true)) batches ->
+(* one integer key: limits take a prefix of the sorted whole and no two result rows are out of
+   exact integer order, ascending or descending — for all 64-bit patterns of both dtypes *)
+Theorem C05_sort_int_key_exact : forall asc op limit (batches : list (list ikey)), op <> OpStr ->
+  Forall (Forall ibits64) batches ->
   process (int_less asc op) limit batches = firstn limit (sort_by (int_less asc op) (concat batches)) /\
   StronglySorted (int_ordered asc) (process (int_less asc op) limit batches).
-Proof. exact sort_int_key_exact_guarded. Qed.
-Print Assumptions C05_sort_int_key_exact_guarded.
+Proof. exact sort_int_key_exact. Qed.
+Print Assumptions C05_sort_int_key_exact.
 
-Example C05_int_guard_satisfiable :
-  forallb (fun k => f64_exact (ival k))
-    [(false, 5, []); (true, 7, []); (false, 18446744073709551613, []); (true, 9007199254740992, []);
-     (false, 9223372036854774784, []); (true, 9223372036854775808, []);
-     (true, 18446744073709549568, []); (false, 9223372036854775808, [])] = true.
-Proof. exact f64_exact_example. Qed.
+(* An integer against a float or a numeric string still goes through float64
+   (GetFloatValueIfPossible): f64_of_int = round to 53 significant bits, nearest-even.  That
+   conversion is monotone and exact up to 2^53 … *)
+Theorem C05_f64_of_int_monotone : forall a b : Z, (a <= b)%Z -> (f64_of_int a <= f64_of_int b)%Z.
+Proof. exact f64_of_int_mono. Qed.
+Print Assumptions C05_f64_of_int_monotone.
+
+Theorem C05_f64_of_int_exact : forall n : Z, (Z.abs n <= 2 ^ 53)%Z -> f64_of_int n = n.
+Proof. exact f64_of_int_exact. Qed.
+Print Assumptions C05_f64_of_int_exact.
+
+Theorem C05_f64_exact_below_2p53 : forall n : Z, (Z.abs n <= 2 ^ 53)%Z -> f64_exact n = true.
+Proof. exact f64_exact_below_2p53. Qed.
+Print Assumptions C05_f64_exact_below_2p53.
+
+(* … so on values whose integers survive it (vexact: e.g. all |n| <= 2^53) the comparator equals
+   the pure float path, which is what C05_less_exact_swo / C05_less_swo_guarded above rely on.
+   FULL STATEMENT (fails): less_real is a strict weak order on all records with separated keys.
+   Refuted for a column that mixes integers above 2^53 with floats: int 2^53+1 ~ float 2^53 ~
+   int 2^53, but int 2^53 < int 2^53+1 *)
+Theorem C05_int_float_mix_not_transitive_refuted : exists a f b,
+  separated [a; f; b] = true /\
+  less_real asc_num a f = false /\ less_real asc_num f a = false /\
+  less_real asc_num f b = false /\ less_real asc_num b f = false /\
+  less_real asc_num b a = true.
+Proof. exact int_float_mix_not_transitive_refuted. Qed.
+Print Assumptions C05_int_float_mix_not_transitive_refuted.
+
+Example C05_vexact_satisfiable :
+  Forall vexact [VInt false 5 []; VInt true 7 []; VInt false 18446744073709551613 []; VInt true 9007199254740992 [];
+     VInt false 9223372036854774784 []; VInt true 9223372036854775808 []; VInt true 18446744073709549568 [];
+     VInt false 9223372036854775808 []; VNum 1500000 []; VStr None []; VNull].
+Proof. exact vexact_example. Qed.
 
 (* ---------- head, tail, paging ---------- *)
 Theorem C05_head_prefix : forall (A : Type) n (batches : list (list A)),
